@@ -73,7 +73,7 @@ Lemma rollout_counts_lemma c h m :
   ((lp c = On \/ lp c = MAOn) -> r_learn (snd (rollout c h m)) = cdiv (evo_steps c) (ls h)).
 Proof.
   unfold rollout, steps_per_gen. destruct (lp c) eqn:E; cbn [snd].
-  - pose proof (rollout_off_counts c h (evo_steps c / num_envs c) 0 m r0) as [A B]. cbn [r0 r_env r_cnt] in *.
+  - pose proof (rollout_off_counts c h (evo_steps c / num_envs c) 0 (turn_start m) r0) as [A B]. cbn [r0 r_env r_cnt] in *.
     repeat split; try congruence; try lia. intros [|]; congruence.
   - rewrite rollout_on_unfold.
     rewrite (iter_add r_cnt (on_outer c h) _ (on_outer_cnt c h)).
@@ -87,7 +87,7 @@ Proof.
     cbn [r0 r_env r_cnt r_learn]. repeat split; try congruence; try lia. intros [|]; congruence.
   - pose proof (rollout_bandit_counts c h (episode_steps c) m r0) as [A B]. cbn [r0 r_env r_cnt] in *.
     repeat split; try congruence; try lia. intros [|]; congruence.
-  - pose proof (rollout_off_counts c h (evo_steps c / num_envs c) 0 m r0) as [A B]. cbn [r0 r_env r_cnt] in *.
+  - pose proof (rollout_off_counts c h (evo_steps c / num_envs c) 0 (turn_start m) r0) as [A B]. cbn [r0 r_env r_cnt] in *.
     repeat split; try congruence; try lia. intros [|]; congruence.
   - rewrite rollout_on_unfold.
     rewrite (iter_add r_cnt (on_outer c h) _ (on_outer_cnt c h)).
@@ -686,7 +686,7 @@ Qed.
    stored transition on (filled buffer, learning_delay passed) *)
 Lemma learn_schedule_lemma c h m :
   (lp c = Off \/ lp c = MAOff) -> 1 <= num_envs c ->
-  ready c h (mem_add c (num_envs c) m) = true ->
+  ready c h (mem_add c (num_envs c) (turn_start m)) = true ->
   r_learn (snd (rollout c h m)) =
     if num_envs c <? ls h then cdiv (evo_steps c / num_envs c) (ls h / num_envs c)
     else (evo_steps c / num_envs c) * (num_envs c / ls h).
@@ -927,7 +927,7 @@ Qed.
 Lemma learn_schedule_warmup_lemma c h m :
   (lp c = Off \/ lp c = MAOff) -> 1 <= num_envs c ->
   let n := evo_steps c / num_envs c in
-  let w := warmup c h n m in
+  let w := warmup c h n (turn_start m) in
   r_learn (snd (rollout c h m)) =
     if num_envs c <? ls h then cdiv n (ls h / num_envs c) - cdiv w (ls h / num_envs c)
     else (n - w) * (num_envs c / ls h).
@@ -935,7 +935,7 @@ Proof.
   intros Hl H1 n w.
   assert (E : r_learn (snd (rollout c h m)) = sched c h w (n - w)).
   { unfold rollout. destruct Hl as [-> | ->]; rewrite rollout_off_learn_warmup; reflexivity. }
-  rewrite E. pose proof (warmup_le c h n m) as Hw. fold w in Hw.
+  rewrite E. pose proof (warmup_le c h n (turn_start m)) as Hw. fold w in Hw.
   destruct (num_envs c <? ls h) eqn:B.
   - rewrite sched_every by assumption. replace (w + (n - w)) with n by lia. reflexivity.
   - apply sched_many. exact B.
@@ -978,4 +978,45 @@ Proof.
   intros Hn. unfold ready, mem_len. rewrite (added_adds c Hn). destruct (is_ma c); [reflexivity|].
   set (x := Nat.min (mem_cap c) (added m + j * num_envs c)).
   destruct (Nat.leb_spec (bs h) x), (Nat.ltb_spec (delay c) x), (Nat.leb_spec (Nat.max (bs h) (S (delay c))) x); cbn; try reflexivity; lia.
+Qed.
+
+(* ------------------------------------------------------------------ transitions stored per turn (n-step window refills every turn) *)
+
+Lemma rollout_off_added c h : forall n i m r,
+  added (fst (rollout_off c h i n m r)) = added m + (n - (nstep c - 1 - calls m)) * num_envs c.
+Proof.
+  induction n as [|n IH]; intros i m r; cbn [rollout_off fst].
+  - cbn. lia.
+  - rewrite IH. unfold mem_add.
+    destruct (Nat.eqb_spec (nstep c) 0) as [Z|NZ]; cbn [orb].
+    + cbn [added calls]. rewrite Z. cbn [Nat.sub]. rewrite !Nat.sub_0_r. lia.
+    + destruct (Nat.leb_spec (nstep c) (S (calls m))) as [L|G]; cbn [added calls].
+      * replace (nstep c - 1 - S (calls m)) with 0 by lia. replace (nstep c - 1 - calls m) with 0 by lia.
+        rewrite !Nat.sub_0_r. lia.
+      * replace (S n - (nstep c - 1 - calls m)) with (n - (nstep c - 1 - S (calls m))) by lia. lia.
+Qed.
+
+(* every off-policy turn stores (iterations - (n_step - 1)) x num_envs transitions: the n-step window is empty when the
+   turn starts and the memories receive nothing while it refills (no n-step buffer: every iteration stores) *)
+Lemma turn_stores_lemma c h m :
+  (lp c = Off \/ lp c = MAOff) ->
+  added (fst (rollout c h m)) = added m + (evo_steps c / num_envs c - (nstep c - 1)) * num_envs c.
+Proof.
+  intros Hl. unfold rollout. destruct Hl as [-> | ->]; rewrite rollout_off_added; cbn [turn_start added calls];
+    rewrite Nat.sub_0_r; reflexivity.
+Qed.
+
+(* the n-step warm-up of a turn, made explicit: with an n-step window of length k >= 1 the memory holds exactly what it
+   held at the start of the turn during the first k - 1 iterations *)
+Lemma adds_turn_start_lemma c m j :
+  j < nstep c -> added (adds c j (turn_start m)) = added m.
+Proof.
+  intros Hj. unfold adds.
+  assert (G : forall j m0, calls m0 + j < nstep c -> added (iter j (mem_add c (num_envs c)) m0) = added m0).
+  { clear. induction j as [|j IH]; intros m0 H; cbn [iter]; [reflexivity|].
+    rewrite IH.
+    - unfold mem_add. destruct (Nat.eqb_spec (nstep c) 0); [lia|]. cbn [orb].
+      destruct (Nat.leb_spec (nstep c) (S (calls m0))); [lia|]. reflexivity.
+    - unfold mem_add. destruct ((nstep c =? 0) || (nstep c <=? S (calls m0))); cbn [calls]; lia. }
+  rewrite G; [reflexivity|]. cbn [turn_start calls]. lia.
 Qed.
